@@ -175,6 +175,14 @@ class Case:
             return self.report('*', 'unexpected-exception', '%s: %s' % (type(err).__name__, str(err)[:300]),
                                step=k, config=before, expected=exp.as_dict())
         self.errors_in_a_row = 0
+
+        # ---- model-independent oracles first: C02 (legal, stable), C03 (trace specification) ----------
+        if step is not None:
+            self.history.append(('returned', str(step)[:200]))
+        if not self.check_legal(k, step, before):
+            return
+        if step is not None and not self.check_trace(k, step, log, before, exp, ev_id(step.event)):
+            return
         if exp.kind == 'error':
             return self.report('C04', 'no-error-raised', 'selected %r need %s but execute_once returned %s'
                                % (exp.fired, sorted(exp.errs), step), step=k, config=before,
@@ -191,8 +199,6 @@ class Case:
             p = 'C05' if (not exp.fired and exp.event_uid is not None) else 'C01'
             return self.report(p, 'no-step', 'expected a step (fired=%r, consumed=%r), got None'
                                % (exp.fired, exp.event_uid), step=k, config=before, pending=exp.pending_uid)
-        self.history.append(('returned', str(step)[:200]))
-
         got_ids = [self.tmap[id(t)] for t in step.transitions]
         got_ev = ev_id(step.event)
         if Counter(got_ids) != Counter(exp.fired):
@@ -231,41 +237,13 @@ class Case:
         if self.focus == 'C05':
             self.c05_bookkeeping(k, exp, got_ev, step)
 
-        # ---- C03 (a): the probe log is exactly what the MacroStep says ---------------------------
-        if not self.check_trace(k, step, log, before, exp, got_ev):
-            return
         # ---- meta-event consistency for C05 (event consumed) --------------------------------------
         if not self.check_meta(k, log, step, t0):
             return
         # ---- C06: history restoration -------------------------------------------------------------
         if not self.check_history(k, step, exp, before):
             return
-        # ---- C02: legal & stable -------------------------------------------------------------------
         cfg = list(it.configuration)
-        if it.final:
-            if cfg:
-                return self.report('C02', 'final-not-empty', 'final but configuration %r' % cfg, step=k)
-            self.was_final = True
-            acc.count('final_reached')
-        lg = legal(self.ch, cfg)
-        if lg is not True:
-            return self.report('C02', 'illegal-configuration', '%s: %r after %s' % (lg, cfg, step), step=k, before=before)
-        if not cfg and not it.final:
-            return self.report('C02', 'empty-not-final', 'configuration empty but not final', step=k)
-        if self.focus == 'C02':
-            orth_active = [n for n in cfg if st[n]['kind'] == 'orthogonal']
-            if orth_active:
-                acc.nontrivial((self.digest, tuple(cfg)), cls='orthogonal_active')
-                acc.count('configs_with_orthogonal_active')
-            for ms in step.steps:
-                if ms.transition is not None and ms.transition.target is not None:
-                    tgt = ms.transition.target
-                    src = ms.transition.source
-                    for P in [a for a in tr.anc(tgt)[1:] if st[a]['kind'] == 'orthogonal'] if len(tr.anc(tgt)) >= 2 else []:
-                        if src != P and src not in tr.desc(P) or (P in ms.exited_states):
-                            acc.count('region_descendant_entered_from_outside')
-                            acc.nontrivial((self.digest, tuple(cfg), 'enter'), cls='enter_region_from_outside')
-                            acc.sample(dict(before=before, transition=[src, tgt], orthogonal=P, after=cfg))
         # ---- configuration equals the model's ---------------------------------------------------------
         if set(cfg) != exp.config:
             p = 'C06' if exp.restores else 'C03'
@@ -286,6 +264,40 @@ class Case:
                     model.queue(ev.name, ev.u, due, internal=True)
                     self.queued[ev.u] = (ev.name, due, True)
                     self.history.append(('sent', ev.name, ev.u, d))
+
+
+    def check_legal(self, k, step, before):
+        """C02 oracle, model independent: evaluated first after every normal return of execute_once."""
+        acc, it, st, tr = self.acc, self.it, self.st, self.tr
+        cfg = list(it.configuration)
+        if it.final:
+            if cfg:
+                self.report('C02', 'final-not-empty', 'final but configuration %r' % cfg, step=k)
+                return False
+            self.was_final = True
+            acc.count('final_reached')
+        lg = legal(self.ch, cfg)
+        if lg is not True:
+            self.report('C02', 'illegal-configuration', '%s: %r after %s' % (lg, cfg, step), step=k, before=before)
+            return False
+        if not cfg and not it.final:
+            self.report('C02', 'empty-not-final', 'configuration empty but not final', step=k)
+            return False
+        if self.focus == 'C02':
+            orth_active = [n for n in cfg if st[n]['kind'] == 'orthogonal']
+            if orth_active:
+                acc.nontrivial((self.digest, tuple(cfg)), cls='orthogonal_active')
+                acc.count('configs_with_orthogonal_active')
+            for ms in (step.steps if step is not None else []):
+                if ms.transition is not None and ms.transition.target is not None:
+                    tgt = ms.transition.target
+                    src = ms.transition.source
+                    for P in [a for a in tr.anc(tgt)[1:] if st[a]['kind'] == 'orthogonal'] if len(tr.anc(tgt)) >= 2 else []:
+                        if src != P and src not in tr.desc(P) or (P in ms.exited_states):
+                            acc.count('region_descendant_entered_from_outside')
+                            acc.nontrivial((self.digest, tuple(cfg), 'enter'), cls='enter_region_from_outside')
+                            acc.sample(dict(before=before, transition=[src, tgt], orthogonal=P, after=cfg))
+        return True
 
     # ---------------------------------------------------------------------------------------------
     def c05_bookkeeping(self, k, exp, got_ev, step):
